@@ -133,6 +133,34 @@ class Tensor(_Arr):
     def softmax(self, dim):
         return _softmax(self, dim)
 
+    # constructors / reshapers that take their metadata from another tensor
+    def new_ones(self, *size, dtype=None, device=None, requires_grad=False):
+        return ones(*size, dtype=dtype or self.dtype, requires_grad=requires_grad)
+
+    def new_zeros(self, *size, dtype=None, device=None, requires_grad=False):
+        return zeros(*size, dtype=dtype or self.dtype, requires_grad=requires_grad)
+
+    def new_full(self, size, fill_value, dtype=None, device=None, requires_grad=False):
+        return full(size, fill_value, dtype=dtype or self.dtype, requires_grad=requires_grad)
+
+    def new_empty(self, *size, dtype=None, device=None, requires_grad=False):
+        return empty(*size, dtype=dtype or self.dtype, requires_grad=requires_grad)
+
+    def new_tensor(self, data, dtype=None, device=None, requires_grad=False):
+        return tensor(data, dtype=dtype or self.dtype, requires_grad=requires_grad)
+
+    def view_as(self, other):
+        return self.view(*other.shape)
+
+    def reshape_as(self, other):
+        return self.reshape(*other.shape)
+
+    def expand_as(self, other):
+        return self.expand(*other.shape)
+
+    def type_as(self, other):
+        return self.to(dtype=other.dtype)
+
     def topk(self, k, dim=-1, largest=True, sorted=True):
         return topk(self, k, dim, largest, sorted)
 
@@ -318,6 +346,12 @@ def hstack(tensors):
     return _cat(ts, 0 if ts[0].dim() == 1 else 1)
 
 
+def count_nonzero(t, dim=None):
+    if dim is not None:
+        return (t != 0).sum(dim)
+    return (t != 0).sum()
+
+
 def column_stack(tensors):
     ts = [t.reshape(-1, 1) if t.dim() <= 1 else t for t in tensors]
     return _cat(ts, 1)
@@ -426,6 +460,19 @@ def einsum(eq_, *ops):
     if len(ops) == 1 and isinstance(ops[0], (list, tuple)):
         ops = tuple(ops[0])
     eq_ = eq_.replace(" ", "")
+    if _bi.any(isinstance(o, (GramOnly, RowComb)) for o in ops):
+        # the spellings of J J^T and w J that go through the Gram-only interface
+        if "->" in eq_ and len(ops) == 2:
+            (x, y), out = eq_.split("->")[0].split(","), eq_.split("->")[1]
+            A, Bm = ops
+            if isinstance(A, GramOnly) and Bm is A and len(x) == 2 and len(y) == 2 and x[1] == y[1] and x[0] != y[0] and len(set(x + y)) == 3:
+                if out == x[0] + y[0] or out == y[0] + x[0]:
+                    return A.gram()  # symmetric
+            if isinstance(Bm, GramOnly) and not isinstance(A, (GramOnly, RowComb)) and len(x) == 1 and len(y) == 2 and x[0] == y[0] and out == y[1]:
+                return A @ Bm
+            if isinstance(A, GramOnly) and not isinstance(Bm, (GramOnly, RowComb)) and len(y) == 1 and len(x) == 2 and y[0] == x[0] and out == x[1]:
+                return Bm @ A
+        raise GramOnlyRead(f"einsum {eq_!r} on J")
     if "->" not in eq_ or "." in eq_:
         raise ShimUnsupported(f"einsum equation {eq_!r}")
     lhs, out = eq_.split("->")
@@ -893,8 +940,54 @@ class _GT:
     def device(self):
         return self.owner.device
 
+    def transpose(self, a=None, b=None):
+        return self.owner
+
+    def permute(self, *dims):
+        dims = tuple(dims[0]) if len(dims) == 1 and not isinstance(dims[0], builtins_int) else dims
+        if tuple(d % 2 for d in dims) == (1, 0):
+            return self.owner
+        if tuple(d % 2 for d in dims) == (0, 1):
+            return self
+        raise GramOnlyRead("J.T.permute")
+
+    def __matmul__(self, w):
+        # J.T @ w  ==  w @ J for a weight vector w
+        if isinstance(w, Tensor) and w.dim() == 1 and not isinstance(w, (GramOnly, RowComb)):
+            return self.owner.__rmatmul__(w)
+        raise GramOnlyRead("J.T @ (something other than a weight vector)")
+
+    def matmul(self, w):
+        return self.__matmul__(w)
+
+    def mv(self, w):
+        return self.__matmul__(w)
+
     def __getattr__(self, name):
         raise GramOnlyRead(f"J.T.{name}")
+
+
+class _SqEntries:
+    """J * J (entry-wise square of an opaque matrix): only its row sums (= diag of the Gramian) and total (= trace) are answered"""
+
+    def __init__(self, owner):
+        self.owner = owner
+
+    def sum(self, dim=None, keepdim=False):
+        J = self.owner
+        m = J.shape[0]
+        if J._G is None:
+            raise GramOnlyRead("squared entries of a distance-only matrix")
+        if dim in (1, -1) and not keepdim:
+            return Tensor._make([J._G[i][i] for i in range(m)], (m,), J.dtype)
+        if dim in (1, -1) and keepdim:
+            return Tensor._make([J._G[i][i] for i in range(m)], (m, 1), J.dtype)
+        if dim is None:
+            return Tensor._make([_sum([J._G[i][i] for i in range(m)])], (), J.dtype)
+        raise GramOnlyRead("column sums of J * J")
+
+    def __getattr__(self, name):
+        raise GramOnlyRead(f"(J * J).{name}")
 
 
 class GramOnly(Tensor):
@@ -976,8 +1069,33 @@ class GramOnly(Tensor):
     def isfinite(self):
         return Tensor._make([_B(True)], (1, 1), bool, "bool").expand(*self.shape)
 
+    def permute(self, *dims):
+        dims = tuple(dims[0]) if len(dims) == 1 and not isinstance(dims[0], builtins_int) else dims
+        if tuple(d % 2 for d in dims) == (1, 0):
+            return _GT(self)
+        if tuple(d % 2 for d in dims) == (0, 1):
+            return self
+        raise GramOnlyRead("J.permute")
+
+    def __mul__(self, o):
+        if o is self:
+            return _SqEntries(self)
+        raise GramOnlyRead("J * (something other than J)")
+
+    def square(self):
+        return _SqEntries(self)
+
+    def pow(self, e):
+        if e == 2:
+            return _SqEntries(self)
+        raise GramOnlyRead("J ** e")
+
+    __pow__ = pow
+
     def norm(self, p=2, dim=None, keepdim=False):
         m = self.shape[0]
+        if p in (2, "fro", None, 2.0) and dim in (1, -1) and keepdim:
+            return Tensor._make([self._G[i][i].sqrt() for i in range(m)], (m, 1), self.dtype)
         if p in (2, "fro", None) and dim in (1, -1) and not keepdim:
             return Tensor._make([self._G[i][i].sqrt() for i in range(m)], (m,), self.dtype)
         if p in (2, "fro", None) and dim is None:
